@@ -576,6 +576,8 @@ class ExprMixin:
         return z3.If(i < 0, z3.IntVal(0), z3.If(i > n, n, i))
 
     def getitem(self, obj, key, lineno=0):
+        if getattr(obj, "is_set", False):
+            raise Unsupported("subscript on a set")
         if isinstance(obj, VOpt):
             self.safety(z3.Not(obj.isnone), "none subscript", lineno)
             obj = obj.val
